@@ -81,6 +81,10 @@ HAND = [
     "T 0 G 1 0 ; en nx dok:0:1800:600:0 ss dr fl:0 nx",
     "T 0 G 2 0 1 ; en ss dfl:0 mr dr nx dok:b:1800:600:0 sc dr dr",
     "T 0 G 2 0 1 ; en ss dfl:0 ad:3000000 dr dok:b:900:300:0 nx dr sp di dr",
+    # a tracker disabled across a restart: its statistics are reset with the others, 'stopped' must not reach it later
+    "T 0 G 2 0 1 ; ST ok:b:1800:600:0 SP td:0 ST ok:b:1800:600:0 te:0 SP",
+    "T 0 G 2 0 0 ; en ss ok:0:1800:600:0 sp di td:0 en ss fl:b ok:b:900:300:0 te:0 nx sp di",
+    "T 0 G 3 0 0 1 ; ST ok:b:600:300:0 td:0 td:1 SP ST ok:b:600:300:0 te:0 te:1 sc SP",
     # unsorted insertion order, sparse tier numbers
     "T 0 G 4 5 0 5 2 ; en ss fl:b fl:b fl:b fl:b nx nx nx nx",
     # tracker disabled while in flight, reply still counted
@@ -194,7 +198,11 @@ def client_stream(r, n):
             ops.append("st:%d:%d:%d" % (r.randrange(10 ** 9), r.randrange(10 ** 9), r.randrange(10 ** 12)))
         elif x < 0.95:
             x2 = r.random()
+            if r.random() < 0.25:
+                ops.append("td:%d" % r.randrange(k))
             ops += ["SP"] if x2 < 0.45 else ["sp", "di"] if x2 < 0.85 else ["SPK"] if x2 < 0.93 else ["di"]
+            if r.random() < 0.25:
+                ops.append("td:%d" % r.randrange(k))
             active = False
         elif x < 0.97:
             ops.append("cl")
@@ -250,6 +258,10 @@ def boundary_cases(r):
                     ops += ["fl:b", "nx"]
             ops += ["ok:b:1800:600:0", "nx", "fl:b", "nx"]
             out.append((groups, ops))
+    # long failure runs: the back-off shift must stay capped (5 << 29.. would overflow int; << 32.. wraps the shift count)
+    for run in (28, 29, 30, 31, 32, 33, 34, 36, 40, 62, 63, 64, 65, 66, 70):
+        out.append(([0], ["en", "ss"] + ["fl:0", "nx"] * run + ["ok:0:1800:600:0", "nx"]))
+    out.append(([0, 1], ["en", "ss"] + ["fl:b", "nx", "fl:b", "nx"] * 35))
     # sub-second offsets around ceil_seconds
     for off in (0, 1, 499999, 999999):
         out.append(([0, 1], ["en", "ss", "ad:%d" % off, "fl:b", "nx", "ad:1", "ad:999999", "ok:b:600:300:0", "nx"], off))
